@@ -11,7 +11,7 @@ import re
 from .. import common, astq, witness
 from .c12 import flatten_shift
 
-FUNCS = "decode_dispatch_data|encode_dispatch_data|augment_methods"
+FUNCS = "decode_dispatch_data|encode_dispatch_data|augment_methods|fast_perfect_hash<"
 
 
 def mentions(n, name):
@@ -579,6 +579,38 @@ def text_rules(run, rule, f):
                 buf["ref"]["name"], astq.text(sz[0])[:60]), where(n))
 
 
+def publish_rules(run, rule, dec, ast):
+    """the decoder ends by publishing v-table pointers for Policy::classes - the raw registration RECORDS, in which a class that
+    appears in two registration statements appears twice with the same id (the decoder's own v-table loop skips such repeats).
+    Over such a range the hash search must not take a bucket that already holds the very id being placed for a collision,
+    or no multiplier can ever be accepted and decoding ends in hash_search_error."""
+    from .. import crules
+    pubs = [n for n in astq.walk(dec["body"]) if n.get("k") in ("CallExpr", "CXXMemberCallExpr") and "publish_vptrs" in (n.get("callee") or "")]
+    if len(pubs) != 1:
+        run.broken.append("decode_dispatch_data: publication of the v-table pointers not found")
+        return
+    over_records = all((astq.refname(x) or "").endswith("::classes") for a in pubs[0]["c"][1:3] for x in astq.walk(a) if x.get("k") == "DeclRefExpr" and x["ref"].get("storage") == "global") and any(
+        (astq.refname(x) or "").endswith("::classes") for a in pubs[0]["c"][1:3] for x in astq.walk(a))
+    pol = re.search(r"decode_dispatch_data<([^,>]+(?:<[^<>]*>)?)", dec["name"])
+    his = [f for f in crules._fn(ast, r"fast_perfect_hash<.*>::hash_initialize<") if len(f["params"]) == 3 and "static_list" in f["name"] and (not pol or pol.group(1) in f["name"])]
+    if not over_records:
+        run.instance(rule, "decode_dispatch_data publishes over a range without repeated ids", (dec["file"], pubs[0]["l"]), ok=True)
+        return
+    if not his:
+        run.broken.append("decode_dispatch_data<%s>: the hash search reached from the decoder's publication is not in the unit" % (pol.group(1) if pol else "?"))
+        return
+    for f in his:
+        t = crules.hash_bucket_table(f)
+        if t is None:
+            run.broken.append("%s: scan body not classifiable over {free, same id, other id}" % crules.short(f)[:90])
+            continue
+        ok = "found=false" not in t["same"] and t["other"] == {"found=false"} and t["free"] == {"bucket-write"}
+        run.instance(rule, "decode_dispatch_data publishes over the registration records; the hash search it reaches (%s) does not reject an id for meeting itself" % crules.short(f)[:60], (f["file"], f["line"]), ok=ok, detail={k: sorted(v) for k, v in t.items()})
+        if not ok:
+            run.violation(rule, "decode_dispatch_data|publish-records", "the decoder publishes v-table pointers over Policy::classes (registration records): a class registered in two statements is two records with one id, "
+                          "and the hash search treats the bucket that already holds this id as a collision (%s): no multiplier is ever accepted and decoding ends in hash_search_error" % {k: sorted(v) for k, v in t.items()}, (dec["file"], pubs[0]["l"]))
+
+
 def scratch_rules(run, rule, f):
     """decoder scratch arrays (alloca): an array indexed by a method's position in the catalog has one entry per method, an array
     indexed by a multi-method's rank one per multi-method; an extent counted over fewer elements than the index ranges over is
@@ -692,6 +724,7 @@ def check(run):
         for f in decs:
             decoder_rules(run, r1, r2, f, augs[0])
             scratch_rules(run, r1, f)
+            publish_rules(run, r2, f, ast)
     run.assumptions += ["compiler invariants slots.size() == arity and strides.size() == arity - 1 (augment_methods / build_dispatch_tables) are taken as given",
                         "headroom (in-place decoding never overtakes unread input) depends on run-time sizes: not decided"]
     return run.finish(level="other", explanation="AST rules over the instantiated encoder, decoder and augment_methods: contributions to each declared extent as affine "
